@@ -92,6 +92,19 @@ def clause_hydration(prog, rep):
                       "%s:%s" % (f.file, s.get("line")))
 
 
+def _receiver_fields(f, place, depth=4):
+    """field names on the place a receiver reference was taken from (`&(*inner).snapshots` -> {snapshots}), through plain copies / reborrows"""
+    out = set(e[1:] for e in place[1:] if isinstance(e, str) and e.startswith(".") and not e[1:].isdigit())
+    if depth <= 0:
+        return out
+    for bb, kind, x in f.defs().get(place[0], []):
+        if kind == "stmt" and x.get("k") in ("ref", "use", "cast") and x.get("o") and "p" in x["o"][0]:
+            out |= _receiver_fields(f, x["o"][0]["p"], depth - 1)
+        elif kind == "call" and x.name in ("deref", "deref_mut", "as_ref", "as_mut", "borrow", "borrow_mut") and x.args and "p" in x.args[0]:
+            out |= _receiver_fields(f, x.args[0]["p"], depth - 1)
+    return out
+
+
 def clause_hydrate_first(prog, rep):
     """hydration reads what is in storage into the queue; a manager method that also changes the stored snapshots or the queue hydrates
     *first*: hydrating after its own write reads that write back as a placeholder entry (timestamp 0) queued ahead of the real one, and the
@@ -115,6 +128,48 @@ def clause_hydrate_first(prog, rep):
                       "%s can reach %s without having hydrated the queue first (hydration after the method's own write reads that write back as a "
                       "placeholder entry ahead of the real one)" % (f.label(), c.name), c.loc())
     rep.floor("hydration-coverage", "storage calls / queue accesses in hydrating manager methods", n, 4)
+    # every *entry point* of the manager (a method no other manager method calls) that touches the queue or the stored snapshots hydrates:
+    # an append that skips hydration leaves the pre-restart snapshots unknown to the retention loop and to rollback
+    mgr_paths = set(f.path for f in mgr)
+    ne = 0
+    for f in mgr:
+        if f.name in ("new", "fmt", "default", "ensure_hydrated") or f.is_test_like():
+            continue
+        callers = [cp for cp in prog.redges().get(f.path, ()) if cp in prog.fns and (cp in mgr_paths or prog.fns[cp].root in mgr_paths) and cp != f.path]
+        if callers:
+            continue
+        touches = [c for c in f.live_calls() if (c.name == "lock" and "Mutex" in (c.self_ty or c.self_adt or ""))
+                   or ((c.trait or "").startswith("mdk_storage_traits::") and c.name in ("create_group_snapshot", "release_group_snapshot", "rollback_group_to_snapshot"))]
+        if not touches:
+            continue
+        ne += 1
+        hyd = [c for c in f.live_calls() if any(t.name == "ensure_hydrated" for t in prog.call_targets(c))]
+        rep.check(bool(hyd), "hydration-coverage", "%s/hydrates" % f.label(), "the entry point hydrates the queue from storage",
+                  "%s touches the snapshot queue / stored snapshots without ever calling ensure_hydrated: after a restart the snapshots taken "
+                  "before it stay unknown (not pruned by retention, not released on rollback)" % f.label(), f.loc())
+    rep.floor("hydration-coverage", "manager entry points touching the queue", ne, 3)
+    # whether hydration is skipped is decided by the hydrated-groups set alone: a non-empty queue says nothing about what is in storage
+    for f in mgr:
+        if f.name != "ensure_hydrated":
+            continue
+        lists = [c for c in f.live_calls() if K.is_storage_trait_call(c, "list_group_snapshots")]
+        rep.floor("hydration-coverage", "ensure_hydrated lists the stored snapshots", len(lists), 1)
+        for c in lists[:1]:
+            extra = set()
+            for w in A.control_dependent_switches(f, c.bb):
+                l = A._opl(f.term(w)["discr"])
+                if l is None:
+                    continue
+                # the tests that feed this switch, and the field of the manager state each one is made on (the receiver's place)
+                for tc in f.depends_on(l)[1]:
+                    if tc.name not in ("contains", "contains_key", "get", "get_mut", "is_empty", "len", "is_some_and", "is_some", "is_none", "front", "back", "iter"):
+                        continue
+                    if tc.args and "p" in tc.args[0]:
+                        extra |= _receiver_fields(f, tc.args[0]["p"]) & {"snapshots"}
+            rep.check(not extra, "hydration-coverage", "ensure_hydrated/skip-decided-by-hydrated-set",
+                      "hydration is skipped only for groups recorded as hydrated",
+                      "ensure_hydrated also skips the listing depending on the in-memory queue (%s): a queue that already holds a snapshot taken "
+                      "after the restart hides every snapshot taken before it" % sorted(extra), c.loc())
 
 
 PARSERS = ("parse", "from_str", "from_str_radix", "from_hex")
